@@ -37,7 +37,8 @@ h_build(void)
 	int nreg = 0;
 
 	/* while ((ch = GETOPT(argc, argv)) != NULL) { GETOPT_SWITCH(ch) { ... first iteration */
-	r = getopt(a_c, a_v);
+	/* (argc == 0 here: the basename scan of argv[0], the only loop without a constant bound, is go_reset's and go_first's business) */
+	r = getopt(0, a_v);
 	__CPROVER_assert(r == getopt_dummy && r != NULL, "fresh process: first call returns the dummy option");
 	__CPROVER_assert(optind == 1 && optreset == 0 && getopt_initialized == 0 && packedopts == NULL && optarg == NULL,
 	    "fresh process: scan state after the first call");
